@@ -193,7 +193,6 @@ func CardConstrsOf(ps []gen.PC) []solver.CardConstr {
 	return out
 }
 
-
 // ProblemPred evaluates a *parsed* problem without solving it, reading only exported data
 // (Units, Clauses[i].Len/Get/Weight/Cardinality, Status): an assignment is a model when it
 // makes every unit true and gives every constraint a weighted sum >= its cardinality.
